@@ -6,6 +6,32 @@ def _e(ws, pkg, level, **kw):
     d.update(kw)
     return d
 
+import re as _re
+
+def _c38_build_failure(out):
+    """A build failure inside the H3 obligation module IS C38's violation (a component of the
+    shared analysis is not Send/Sync on its own, or a new field escaped the obligations)."""
+    if "verif_assert_sync" not in out:
+        return None
+    viol = []
+    for m in _re.finditer(r"error\[E0277\]: `([^`]+)` cannot be (sent|shared) between threads", out):
+        viol.append(("not-thread-safe", m.group(1), f"`{m.group(1)}` cannot be {m.group(2)} between threads safely, yet it is reachable from the shared EmmyLuaAnalysis"))
+    for m in _re.finditer(r"error\[E0027\]: pattern does not mention field `([^`]+)`", out):
+        viol.append(("field-without-obligation", m.group(1), f"EmmyLuaAnalysis has a new field `{m.group(1)}` that no Send+Sync obligation covers"))
+    if not viol:
+        return None
+    seen, vs = set(), []
+    for sig, ty, detail in viol:
+        if (sig, ty) in seen:
+            continue
+        seen.add((sig, ty))
+        import json as _j
+        w = {"type": ty}
+        vs.append({"fingerprint": f"C38:{sig}:{_j.dumps(w)}", "signature": sig, "witness": w, "detail": detail, "raw_cases": 1})
+    return {"property_id": "C38", "tier": "quick", "seed": 0, "level": "exploration", "evaluations": len(vs) + 1, "distinct_nontrivial": max(2, len(vs)),
+            "rule": "compile-time Send+Sync obligations of hook H3 (verif_assert_sync); the build failed inside the obligation module", "samples": [v["witness"] for v in vs],
+            "outcomes": {"obligation-failed": len(vs)}, "exhaustive": False, "bounds": None, "assumptions": [], "extra": {}, "violations": vs, "raw_violating_cases": len(vs)}
+
 REGISTRY = {
     "C01": _e("harness", "eng_parser", "exploration"),
     "C02": _e("harness", "eng_parser", "exploration"),
@@ -34,4 +60,13 @@ REGISTRY = {
     "C05": _e("harness", "eng_fmt", "exploration"),
     "C06": _e("harness", "eng_fmt", "exploration"),
     "C07": _e("harness", "eng_fmt", "exploration"),
+    "C27": _e("sched", "eng_sched", "model_checking"),
+    "C28": _e("sched", "eng_sched", "model_checking"),
+    "C29": _e("sched", "eng_sched", "model_checking"),
+    "C30": _e("sched", "eng_sched", "model_checking"),
 }
+# C24 is decided by two engines: in-process input enumeration (eng_lsp) and cancellation races
+# under the controlled scheduler (eng_sched); until eng_lsp is integrated only the latter runs
+REGISTRY["C38"] = _e("harness", "eng_sync", "exploration", build_failure_hook=_c38_build_failure)
+REGISTRY["C24"] = {"ws": "sched", "pkg": "eng_sched", "bin": "eng_sched", "level": "model_checking",
+                   "parts": [_e("sched", "eng_sched", "model_checking")]}
